@@ -214,9 +214,9 @@ def units(tier, seed):
 
 # ---- level B: the value Economics.Calculate finally reports, with and without add-ons -------------------------------------
 CALC_BOUNDS = {
-    'quick': [(k, em, 2, 1, a) for k in ('electricity', 'direct-use', 'cogen-topping') for em in (1, 2, 3) for a in (0, 1)],
+    'quick': [(k, em, 2, 1, a) for k in ('electricity', 'direct-use', 'cogen-topping') for em in (1, 2, 3) for a in (0, 1)] + [('sbt', 3, 2, 1, 0)],
     'thorough': [(k, em, L, K, a) for k in ('electricity', 'direct-use', 'chiller', 'heat-pump', 'district-heating', 'cogen-topping', 'cogen-bottoming', 'cogen-parallel')
-                 for em in (1, 2, 3) for (L, K, a) in ((2, 1, 0), (2, 1, 1), (3, 2, 2))],
+                 for em in (1, 2, 3) for (L, K, a) in ((2, 1, 0), (2, 1, 1), (3, 2, 2))] + [('sbt', em, 2, 1, 0) for em in (1, 2, 3)],
 }
 META['bounds']['quick']['level B (kind, economic model, L, K, add-ons)'] = [list(x) for x in CALC_BOUNDS['quick']]
 META['bounds']['thorough']['level B (kind, economic model, L, K, add-ons)'] = [list(x) for x in CALC_BOUNDS['thorough']]
@@ -240,7 +240,7 @@ def calc_spec(cfg):
 def calc_drive(cfg, vals, symbolic):
     from . import c04
     from .. import econ
-    m = c04.prepared(cfg).reset()
+    m = c04.prepared({k: v_ for k, v_ in cfg.items() if k != "harness"}).reset()
     v = dict(vals)
     v.update({'economics.totalcapcost.Valid': True, 'economics.oamtotalfixed.Valid': True})
     if cfg.get('addon') and symbolic:
@@ -293,12 +293,17 @@ def calc_concrete(cfg, inputs, only=None):
 def run_calc_unit(unit):
     from . import c04
     from .. import econ
-    cfg = c04.cfg_of(unit['kind'], unit['L'], unit['K'], False, addon=unit['addon'], em=unit['em'])
+    if unit['kind'] == 'sbt':       # closed-loop family: the levelized cost reported by SBTEconomics.Calculate
+        from . import c03
+        cfg = {k: v for k, v in c03.sbt_cfg({}).items() if k != 'flags'}
+        cfg['em'] = unit['em']
+    else:
+        cfg = c04.cfg_of(unit['kind'], unit['L'], unit['K'], False, addon=unit['addon'], em=unit['em'])
     cfg['harness'] = 'calculate'
     tmo = 20000 if unit['tier'] == 'quick' else 90000
     n = cfg['L']
     spec = calc_spec(cfg)
-    log = harness.UnitLog(cfg)
+    log = harness.UnitLog({k: v for k, v in cfg.items() if k != 'extra'})
     c04.prepared({k: v for k, v in cfg.items() if k != 'harness'})
     em, eu, pt = EconomicModel.from_int(cfg['em']), EndUseOptions.from_int(cfg['eu']), PlantType.from_int(cfg['pt'])
 
